@@ -142,4 +142,11 @@ def Outcome.render : Outcome → String
   | .reject => "reject"
   | .slice a b => s!"slice:{a}:{b}"
 
+/-- `rangeHeader.String()`: the text of a Range value for the three shapes (`-1` = absent bound):
+    `bytes=-n` (suffix), `bytes=a-` (from), `bytes=a-b`. -/
+def rangeString (start end_ : Int) : Str :=
+  if start = -1 then s "bytes=-" ++ intToDec end_
+  else if end_ = -1 then s "bytes=" ++ intToDec start ++ ['-']
+  else s "bytes=" ++ intToDec start ++ '-' :: intToDec end_
+
 end Rv.Range
